@@ -305,8 +305,8 @@ func replayC06(raw json.RawMessage) (string, error) {
 
 // asmHistorySearch runs f on every history (all variants x all sequences up to depth), sharded by
 // (variant, first op). f returns a violation description or "".
-func asmHistorySearch(depth int, variants []asmVariant, f func(v asmVariant, al []asmOp, idx []int) (sig, what string, states int, rep *asmHistory), r *report.Run, capacity int) (histories, transitions, states int64) {
-	al := asmAlphabet()
+func asmHistorySearch(depth int, variants []asmVariant, f func(v asmVariant, al []asmOp, idx []int) (sig, what string, states int, rep *asmHistory), r *report.Run, capacity int, extra ...asmOp) (histories, transitions, states int64) {
+	al := append(asmAlphabet(), extra...)
 	type job struct {
 		v             asmVariant
 		first, second int
